@@ -269,6 +269,56 @@ fn check_default_adapter(case: &AdapterCase) -> CaseResult {
     let entry = reference.entry.clone();
     let (fl, is_int) = exact_inv(rate.max(2f32.powi(-100)));
     let mut out = Vec::with_capacity(256);
+    // the constructors a user normally calls (ThreadRng behind them: only what does not depend on
+    // the draw is decided - the rate handed on, always-emit at rate 1, and the weight when 1/rate
+    // is an integer)
+    {
+        use metrique_writer::sample::SampledFormatExt;
+        let rec_a = RecFormat::default();
+        let calls_a = rec_a.calls.clone();
+        let mut by_ext = no_panic("fixed-fraction-new", || rec_a.sample_by_fixed_fraction(rate))?;
+        let rec_b = RecFormat::default();
+        let calls_b = rec_b.calls.clone();
+        let mut by_new = no_panic("fixed-fraction-new", || FixedFractionSample::new(rec_b, rate))?;
+        let q = GenEntry::default();
+        let pq = q.prepare();
+        for _ in 0..case.words.len() {
+            let _ = no_panic("fixed-fraction-format", || by_ext.format(&pq, &mut io::sink()))?;
+            let _ = no_panic("fixed-fraction-format", || by_new.format(&pq, &mut io::sink()))?;
+        }
+        for (what, calls) in [("sample_by_fixed_fraction", calls_a), ("FixedFractionSample::new", calls_b)] {
+            let l = calls.lock().unwrap();
+            vensure!(
+                l.iter().all(|c| *c == Some(case.rate_bits)),
+                "sample:rate-not-passed-on",
+                "{what}({rate:e}): the inner format received {:?}",
+                l.iter().find(|c| **c != Some(case.rate_bits))
+            );
+            vensure!(
+                rate != 1.0 || l.len() == case.words.len(),
+                "sample:decision-not-draw-le-rate",
+                "{what}(1.0) emitted {} of {} entries",
+                l.len(),
+                case.words.len()
+            );
+        }
+        if is_int && fl >= 1 && fl < (1u128 << 53) {
+            let mut default_sampled = EmfCfg::simple(Ctor::NoValidations).build().with_sampling();
+            let p = entry.prepare();
+            reference.out.clear();
+            let r1 = no_panic("emf-sampled-format", || reference.emf.format_with_sample_rate(&p, &mut reference.out, rate))?;
+            out.clear();
+            let r2 = no_panic("emf-sampled-format", || default_sampled.format_with_sample_rate(&p, &mut out, rate))?;
+            vensure!(
+                r1.is_ok() && r2.is_ok() && reference.out == out,
+                "weight:default-rng-adapter-differs",
+                "rate {rate:e} (1/rate is the integer {fl}): Emf::with_sampling() wrote {:?}, the explicit-rng path {:?}",
+                String::from_utf8_lossy(&out),
+                String::from_utf8_lossy(&reference.out)
+            );
+            classes.push("with-sampling-default-constructor");
+        }
+    }
     for w in &case.words {
         TL_WORD.with(|c| c.set(*w));
         reference.rng.word.store(*w, Ordering::Relaxed);
@@ -571,6 +621,12 @@ fn exhaustive_rates(ctx: &mut Ctx) {
 
 #[derive(Clone, Debug, Serialize, Deserialize)]
 pub struct CongressCase {
+    /// how the sampler is built: 0 = builder (interval, target) + build_with_rng (scripted draws);
+    /// 1 = builder (target, interval) + build() (default rng); 2 =
+    /// sample_by_congress_at_fixed_entries_per_second(target / 15); 3 = builder with the interval
+    /// only + build() (default target 1500); 4 = builder with the target only + build_with_rng
+    #[serde(default)]
+    pub ctor: u8,
     pub target: u32,
     /// per interval: volume per group index
     pub intervals: Vec<Vec<u32>>,
@@ -594,8 +650,9 @@ fn arb_congress_case(max_intervals: usize, max_groups: usize) -> impl Strategy<V
             prop::collection::vec(prop::collection::vec(arb_volume(), g), 1..max_intervals)
         }),
         prop::collection::vec(any::<u32>(), 1..16),
+        prop_oneof![3 => Just(0u8), 2 => 1u8..5],
     )
-        .prop_map(|(target, mut intervals, words)| {
+        .prop_map(|(target, mut intervals, words, ctor)| {
             // in a third of the cases the first group falls silent for 10+ intervals in the middle
             // (longer than the sampler keeps an unobserved group) and then comes back
             if words[0] % 3 == 0 && intervals.len() >= 14 {
@@ -605,6 +662,7 @@ fn arb_congress_case(max_intervals: usize, max_groups: usize) -> impl Strategy<V
                 }
             }
             CongressCase {
+                ctor,
                 target,
                 intervals,
                 words,
@@ -614,13 +672,24 @@ fn arb_congress_case(max_intervals: usize, max_groups: usize) -> impl Strategy<V
 
 /// group g; every third group is identified by TWO pairs, given in alternating order (the
 /// grouping must not depend on the order in which an entry lists its pairs)
+#[allow(dead_code)]
+fn is_group(k: &[(String, String)], g: usize) -> bool {
+    if g == 5 { k.is_empty() } else { k.iter().any(|p| p.0 == "op" && p.1 == format!("g{g}")) }
+}
 struct GroupEntry(usize, bool);
 impl Entry for GroupEntry {
     fn write<'a>(&'a self, _w: &mut impl metrique_writer_core::EntryWriter<'a>) {}
     fn sample_group(&self) -> impl Iterator<Item = (std::borrow::Cow<'static, str>, std::borrow::Cow<'static, str>)> {
         let op: (std::borrow::Cow<'static, str>, std::borrow::Cow<'static, str>) = ("op".into(), format!("g{}", self.0).into());
         let az: (std::borrow::Cow<'static, str>, std::borrow::Cow<'static, str>) = ("az".into(), format!("z{}", self.0 % 2).into());
-        let v = if self.0 % 3 != 2 {
+        let tier: (std::borrow::Cow<'static, str>, std::borrow::Cow<'static, str>) = ("tier".into(), "t".into());
+        let v = if self.0 == 5 {
+            // an entry without any sample-group field: the (common) empty group
+            vec![]
+        } else if self.0 == 7 {
+            // three pairs: beyond the inline capacity of the group key
+            if self.1 { vec![tier, az, op] } else { vec![op, tier, az] }
+        } else if self.0 % 3 != 2 {
             vec![op]
         } else if self.1 {
             vec![az, op]
@@ -632,14 +701,66 @@ impl Entry for GroupEntry {
 }
 
 #[cfg(metrique_verif)]
+enum Cong {
+    Scripted(metrique_writer::sample::CongressSample<RecFormat, WordRng>),
+    Default(metrique_writer::sample::CongressSample<RecFormat>),
+}
+#[cfg(metrique_verif)]
+impl Cong {
+    fn format(&mut self, e: &GroupEntry, o: &mut impl io::Write) -> Result<(), IoStreamError> {
+        match self {
+            Cong::Scripted(c) => c.format(e, o),
+            Cong::Default(c) => c.format(e, o),
+        }
+    }
+    fn verif_groups(&self) -> Vec<(Vec<(String, String)>, f32, f32, u32)> {
+        match self {
+            Cong::Scripted(c) => c.verif_groups(),
+            Cong::Default(c) => c.verif_groups(),
+        }
+    }
+    fn verif_end_interval(&mut self) {
+        match self {
+            Cong::Scripted(c) => c.verif_end_interval(),
+            Cong::Default(c) => c.verif_end_interval(),
+        }
+    }
+}
+
+#[cfg(metrique_verif)]
 fn check_congress(case: &CongressCase) -> CaseResult {
     let rec = RecFormat::default();
     let calls = rec.calls.clone();
     let rng = WordRng::new();
-    let mut c = CongressSampleBuilder::default()
-        .interval(std::time::Duration::from_secs(86_400))
-        .target_entries_per_interval(case.target)
-        .build_with_rng(rec, rng.clone());
+    use metrique_writer::sample::SampledFormatExt;
+    let day = std::time::Duration::from_secs(86_400);
+    let (mut c, target_eff, scripted) = match case.ctor % 5 {
+        1 => (
+            Cong::Default(CongressSampleBuilder::default().target_entries_per_interval(case.target).interval(day).build(rec)),
+            case.target,
+            false,
+        ),
+        2 => {
+            let per_second = (case.target / 15).max(1);
+            (Cong::Default(rec.sample_by_congress_at_fixed_entries_per_second(per_second)), per_second * 15, false)
+        }
+        3 => (Cong::Default(CongressSampleBuilder::default().interval(day).build(rec)), 1500, false),
+        4 => (
+            Cong::Scripted(CongressSampleBuilder::default().target_entries_per_interval(case.target).build_with_rng(rec, rng.clone())),
+            case.target,
+            true,
+        ),
+        _ => (
+            Cong::Scripted(
+                CongressSampleBuilder::default()
+                    .interval(day)
+                    .target_entries_per_interval(case.target)
+                    .build_with_rng(rec, rng.clone()),
+            ),
+            case.target,
+            true,
+        ),
+    };
     // the first format() call ends the (empty) start-up interval when the clock has advanced
     // past build time: make sure it has
     let t = std::time::Instant::now();
@@ -657,13 +778,13 @@ fn check_congress(case: &CongressCase) -> CaseResult {
         let rate_of = |g: usize| -> Option<f32> {
             groups
                 .iter()
-                .find(|(k, ..)| k.iter().any(|p| p.0 == "op" && p.1 == format!("g{g}")))
+                .find(|(k, ..)| is_group(k, g))
                 .map(|x| x.2)
         };
         // one group per distinct identity: a group listed twice (e.g. once per pair order) would
         // have its volume split over two rate computations
         for g in 0..vols.len() {
-            let n = groups.iter().filter(|(k, ..)| k.iter().any(|p| p.0 == "op" && p.1 == format!("g{g}"))).count();
+            let n = groups.iter().filter(|(k, ..)| is_group(k, g)).count();
             vensure!(
                 n <= 1,
                 "congress:one-group-tracked-as-several",
@@ -687,22 +808,22 @@ fn check_congress(case: &CongressCase) -> CaseResult {
                 budget += *avg as f64 * *rate as f64;
                 pairs.push((*avg, *rate));
             }
-            if pt <= case.target as u64 {
+            if pt <= target_eff as u64 {
                 for (k, _avg, rate, _) in &groups {
                     vensure!(
                         *rate == 1.0,
                         "congress:rate-not-1-under-target",
                         "interval {ii}: previous interval saw {pt} <= target {} but group {k:?} has rate {rate}",
-                        case.target
+                        target_eff
                     );
                 }
                 classes.push("under-target-interval");
             } else {
                 vensure!(
-                    budget <= case.target as f64 * (1.0 + 1e-3),
+                    budget <= target_eff as f64 * (1.0 + 1e-3),
                     "congress:budget-exceeded",
                     "interval {ii}: previous interval saw {pt} > target {}; sum(average x rate) = {budget}; groups={groups:?}",
-                    case.target
+                    target_eff
                 );
                 for (a1, r1) in &pairs {
                     for (a2, r2) in &pairs {
@@ -716,7 +837,7 @@ fn check_congress(case: &CongressCase) -> CaseResult {
                     }
                 }
                 classes.push("over-target-interval");
-                let senate = case.target as f32 / groups.len().max(1) as f32;
+                let senate = target_eff as f32 / groups.len().max(1) as f32;
                 let mut distinct: Vec<u32> = pairs.iter().map(|p| p.0.to_bits()).collect();
                 distinct.sort();
                 distinct.dedup();
@@ -758,7 +879,27 @@ fn check_congress(case: &CongressCase) -> CaseResult {
                 if first_call {
                     first_call = false;
                 }
-                if individually {
+                if individually && !scripted {
+                    // default rng: the draw is not ours; what remains decidable is that rate 1
+                    // always emits and that an emitted entry carries the group's rate
+                    let rate = known_rate[g].unwrap_or(1.0);
+                    known_rate[g] = Some(rate);
+                    let emitted = calls.lock().unwrap().len() - n0;
+                    vensure!(
+                        emitted <= 1 && (rate != 1.0 || emitted == 1),
+                        "sample:decision-not-draw-le-rate",
+                        "interval {ii} group g{g}: rate {rate}: emitted {emitted} time(s)"
+                    );
+                    if emitted == 1 {
+                        let passed = *calls.lock().unwrap().last().unwrap();
+                        vensure!(
+                            passed == Some(rate.to_bits()),
+                            "sample:rate-not-passed-on",
+                            "group rate {rate} but the inner format received {passed:?}"
+                        );
+                    }
+                    classes.push("default-rng-constructor");
+                } else if individually {
                     let rate = known_rate[g].unwrap_or(1.0);
                     known_rate[g] = Some(rate);
                     let drew = rng.draws.load(Ordering::Relaxed) - d0;
@@ -914,11 +1055,11 @@ pub fn run(ctx: &mut Ctx) {
     ctx.explore(
         SubCfg::new(
             "c12-default-rng-adapter",
-            "the stateless adapter DefaultRng<R> (what with_sampling() and the sample_by_* constructors use over ThreadRng), instantiated over a scripted stateless R: arbitrary rates x 1-8 draw words (full 64-bit words, words at the floor/ceiling switch of the rate). Oracle (differential against the explicit-rng path, which c12-weight decides exactly): SampledEmf over DefaultRng<R> writes byte-identical output to SampledEmf over R for the same word; FixedFractionSample over DefaultRng<R> emits iff draw <= rate. Non-trivial = 1/rate not an integer and a word whose two 32-bit halves differ",
+            "the stateless adapter DefaultRng<R> (what with_sampling() and the sample_by_* constructors use over ThreadRng), instantiated over a scripted stateless R: arbitrary rates x 1-8 draw words (full 64-bit words, words at the floor/ceiling switch of the rate). Oracle (differential against the explicit-rng path, which c12-weight decides exactly): SampledEmf over DefaultRng<R> writes byte-identical output to SampledEmf over R for the same word; FixedFractionSample over DefaultRng<R> emits iff draw <= rate; sample_by_fixed_fraction / FixedFractionSample::new (ThreadRng) hand on exactly the configured rate and always emit at rate 1; Emf::with_sampling() writes the same bytes as the explicit-rng path whenever 1/rate is an integer. Non-trivial = 1/rate not an integer and a word whose two 32-bit halves differ",
             if q { 30_000 } else { 600_000 },
         )
         .threads(threads)
-        .mandatory(&["word-with-distinct-halves"]),
+        .mandatory(&["word-with-distinct-halves", "with-sampling-default-constructor"]),
         || {
             (arb_rate_bits_valid(), prop::collection::vec(prop_oneof![3 => any::<u64>(), 1 => any::<u32>().prop_map(|w| w as u64), 2 => (0u64..(1 << 53)).prop_map(|i| i << 11)], 1..8))
                 .prop_map(|(rate_bits, words)| AdapterCase { rate_bits, words })
@@ -953,11 +1094,11 @@ pub fn run(ctx: &mut Ctx) {
     ctx.explore(
         SubCfg::new(
             "c12-congress",
-            "histories of 1-40 intervals x 1-12 groups, volumes from {0,1,small,bursts to 30 000} (groups appear, disappear past the TTL, burst), target 1-10 000, scripted draws. After every interval (hook H4): every rate finite and in (0,1]; all rates == 1 when the interval just ended saw <= target; otherwise sum(average x rate) <= target(1+1e-3) and average_a < average_b => rate_a >= rate_b(1-1e-5). Per entry: emitted iff rate == 1 or draw <= rate, at most one draw, the group's rate passed on. Non-trivial = over-target interval with >=3 distinct averages of which one is below the senate share",
+            "histories of 1-40 intervals x 1-12 groups (keys of one or two pairs in both orders, group 5 = the empty key of an entry without sample-group fields, group 7 = three pairs), volumes from {0,1,small,bursts to 30 000} (groups appear, disappear past the TTL, burst), target 1-10 000, scripted draws; the sampler is built through build_with_rng, or through build() / sample_by_congress_at_fixed_entries_per_second(n) / a builder with only one of its two settings (default rng: per-entry decisions are then only checked at rate 1, the rates and the budget as always against the effective target). After every interval (hook H4): every rate finite and in (0,1]; all rates == 1 when the interval just ended saw <= target; otherwise sum(average x rate) <= target(1+1e-3) and average_a < average_b => rate_a >= rate_b(1-1e-5). Per entry: emitted iff rate == 1 or draw <= rate, at most one draw, the group's rate passed on. Non-trivial = over-target interval with >=3 distinct averages of which one is below the senate share",
             if q { 3_000 } else { 60_000 },
         )
         .threads(threads)
-        .mandatory(&["under-target-interval", "over-target-interval", "emitted", "dropped", "group-evicted-after-silence", "group-came-back-after-eviction", "two-pair-group-in-both-orders"])
+        .mandatory(&["under-target-interval", "over-target-interval", "emitted", "dropped", "group-evicted-after-silence", "group-came-back-after-eviction", "two-pair-group-in-both-orders", "default-rng-constructor"])
         .shrink_iters(300),
         || arb_congress_case(40, 12),
         check_congress,
